@@ -16,6 +16,17 @@ func (c *Ctx) sweepObl(name, cond, src string) {
 	if !(c.con.Sweep || sweepAll) || c.inSpec {
 		return
 	}
+	if len(c.con.SweepKinds) > 0 && !sweepAll {
+		ok := false
+		for _, k := range c.con.SweepKinds {
+			if name == k || strings.HasPrefix(name, k+"#") || strings.HasPrefix(name, k+".") {
+				ok = true
+			}
+		}
+		if !ok {
+			return
+		}
+	}
 	c.addObl("S", c.fnName()+"."+name, cond, src)
 }
 
